@@ -70,11 +70,24 @@ class Builder:
                                 return r
         return None
 
+    def all_definitions(self, k, key):
+        out = []
+        for kk, ns_ in self.members:
+            if kk == k:
+                out.extend(m for key_, m in ns_ if key_ == key and isinstance(m, dict))
+        for o in self.ops:
+            if o["op"] == "class" and o["k"] == k:
+                for bb in o["bases"]:
+                    out.extend(self.all_definitions(bb, key))
+        return out
+
     def may_take_over(self, bases, key, member):
         """taking the member over from one base is generated only when no OTHER base resolves the key to something else
         (with several bases handing down different members the library writes onto the shared function: a known finding
         that has its own hand-written stream)"""
-        if not all(self.resolve(bb, key) in (None, member) for bb in bases):
+        # (every definition of the key ANYWHERE in the ancestry of the bases has to be this very member: which one a base
+        # resolves the key to is a matter of its C3 linearisation, not of a depth-first walk)
+        if not all(m == member for bb in bases for m in self.all_definitions(bb, key)):
             return False
         # only functions that carry contracts of their OWN are taken over: for them the object the class holds IS the object
         # the history names (the checker); a bare function gets its checker from the meta-class, and that new object - what
